@@ -6,7 +6,7 @@
    against the Go code by the correspondence check (Model/Counter.v, Map.v). *)
 From Coq Require Import List ZArith Permutation.
 From Orda.Model Require Import Base Time Ops Counter Map.
-From Orda.Proofs Require Import OrderFacts Permute Sys CounterFacts MapFacts MapConv.
+From Orda.Proofs Require Import OrderFacts Permute Sys CounterFacts MapFacts MapConv SnapshotFacts.
 
 (* Counter: ANY two orders of the same operations give the same value (no readiness needed) *)
 Theorem C01_counter :
@@ -27,6 +27,16 @@ Theorem C01_map :
     (forall k, mget s1 k = mget s2 k) /\ m_size s1 = m_size s2.
 Proof. exact map_convergence. Qed.
 Print Assumptions C01_map.
+
+(* ... and therefore expose the same JSON view *)
+Theorem C01_map_view :
+  forall (author : op -> nat) (s : sys op) (r1 r2 : nat),
+    reachable mstate op tkey m_oid author m_exec_remote m_ready m_init s ->
+    Permutation (applied _ (reps _ s r1)) (applied _ (reps _ s r2)) ->
+    m_view (fold_left m_exec_remote (applied _ (reps _ s r1)) m_init) =
+    m_view (fold_left m_exec_remote (applied _ (reps _ s r2)) m_init).
+Proof. exact map_convergence_view. Qed.
+Print Assumptions C01_map_view.
 
 (* the datatype-independent core: executable permutations of duplicate-free operations agree *)
 Theorem C01_abstract :
